@@ -114,6 +114,27 @@ def jv(v):
     raise ValueError(t)
 
 
+TOKS = {"{": "TObjS", "}": "TObjE", "[": "TArrS", "]": "TArrE", "t": "TTrue", "f": "TFalse", "z": "TNull", "!": "TBad"}
+
+
+def tok(t):
+    """one token of the harness (jx tokenizer) as a SpansJson.tok"""
+    if t in TOKS:
+        return TOKS[t]
+    k = {"k": "TKey", "s": "TStr", "n": "TNum"}[t[0]]
+    return "(%s %s)" % (k, S(t[1:]))
+
+
+def toks(c):
+    return coq_list([coq_list([tok(t) for t in ts]) for ts in (c.get("toks") or [])])
+
+
+def events(c):
+    """per stored row: the events OutputQuery returned (None: no span)"""
+    return coq_list(["(Some %s)" % coq_list(["(%d, %s)" % (e["t"], S(e["n"])) for e in (r.get("ev") or [])]) if r.get("ok") else "None"
+                     for r in (c["read"] or [])])
+
+
 def payload(p, idx):
     k = p["kind"]
     if k == "empty":
@@ -156,7 +177,8 @@ def case_to_coq(c):
     if c["fmt"] == "otlp":
         inp = "(InOtlp %s)" % coq_list([ores(r) for r in c["otlp"]])
     else:
-        inp = "(InZipkin %s %s)" % ("true" if c["fmt"] == "znd" else "false", coq_list([jv(e) for e in c["zip"]]))
+        # the request the token streams denote (SpansJson.zin): computed inside Coq from the tokenizer's output, not from the generator's tree
+        inp = "c%d_in" % c["id"]
     return "(Build_case %d %s (Build_delivery %d %d)\n     %s %s\n     %s\n     %s)" % (
         c["id"], inp, c.get("seg_mode", 0), c.get("seg_seed", 0), "true" if c["err"] else "false",
         coq_list([trow(r, i) for i, r in enumerate(c["spans"] or [])]),
@@ -164,7 +186,7 @@ def case_to_coq(c):
         coq_list([rspan(r) for r in (c["read"] or [])]))
 
 
-HEADER = ("From Coq Require Import List ZArith NArith Bool String Ascii Uint63.\nFrom Qryn Require Import model.Spans model.SpansChunk model.SpansWire model.SpansStore.\n"
+HEADER = ("From Coq Require Import List ZArith NArith Bool String Ascii Uint63.\nFrom Qryn Require Import model.Spans model.SpansChunk model.SpansWire model.SpansStore model.SpansJson.\n"
           "Import ListNotations.\nOpen Scope string_scope.\nOpen Scope Z_scope.\n")
 
 
@@ -179,7 +201,14 @@ def cases_file(cases):
     [ccases] = every request with the parser's responses (trace rows, tag rows per response) and the Zipkin text lengths"""
     global IN
     IN = Interner()
-    one = ["Definition c%d : case := %s." % (c["id"], case_to_coq(c)) for c in cases]
+    one = []
+    for c in cases:
+        if c["fmt"] != "otlp":
+            one.append("Definition c%d_toks : list (list tok) := %s." % (c["id"], toks(c)))
+            one.append("Definition c%d_in : input := zin %s c%d_toks." % (c["id"], "true" if c["fmt"] == "znd" else "false", c["id"]))
+        one.append("Definition c%d : case := %s." % (c["id"], case_to_coq(c)))
+    tc = "Definition tcases : list tcase := %s.\n" % coq_list(
+        ["(Build_tcase c%d %s c%d_toks %s)" % (c["id"], "true" if c["fmt"] == "znd" else "false", c["id"], events(c)) for c in cases if c["fmt"] != "otlp"])
     lst = "Definition cases : list case := %s.\n" % coq_list(["c%d" % c["id"] for c in cases if not flushed_error(c)])
     cc = "Definition ccases : list ccase := %s.\n" % coq_list(
         ["(Build_ccase c%d %s %s)" % (c["id"], coq_list([Z(n) for n in c.get("text_lens") or []]),
@@ -188,7 +217,7 @@ def cases_file(cases):
         ["(Build_wcase %d (c_in c%d) %s)" % (c["id"], c["id"], coq_list(
             ["(%d, (%d%%uint63, %d%%uint63))" % (n, fp[0], fp[1]) for n, fp in zip(c.get("pay_lens") or [], c.get("pay_fp") or [])]))
          for c in cases if c["fmt"] == "otlp"])
-    return HEADER + "\n".join(IN.defs) + "\n" + "\n".join(one) + "\n" + lst + cc + wc
+    return HEADER + "\n".join(IN.defs) + "\n" + "\n".join(one) + "\n" + lst + cc + wc + tc
 
 
 def ids(s):
@@ -203,13 +232,15 @@ def eval_text(ck, name, cases_txt):
            "Definition CM := Eval vm_compute in chunk_mismatches (fun c => psz_store (cc_lens c)) ccases.\nPrint CM.\n"
            "Definition WM := Eval vm_compute in wire_mismatches wcases.\nPrint WM.\n"
            "Definition WR := Eval vm_compute in wire_roundtrip_failures wcases.\nPrint WR.\n"
-           "Definition CV := Eval vm_compute in chunk_spec_violations ccases.\nPrint CV.\n")
+           "Definition CV := Eval vm_compute in chunk_spec_violations ccases.\nPrint CV.\n"
+           "Definition TM := Eval vm_compute in tok_mismatches tcases.\nPrint TM.\n"
+           "Definition TI := Eval vm_compute in tok_illformed tcases.\nPrint TI.\n")
     rc, out = ck.coq_eval(name, txt)
     if rc != 0:
         return None, out
     flat = " ".join(out.split())
     res = {}
-    for nm in ("M", "V", "CM", "CV", "WM", "WR"):
+    for nm in ("M", "V", "CM", "CV", "WM", "WR", "TM", "TI"):
         m = re.search(r"(?<![A-Z])" + nm + r" = \[(.*?)\]\s*: list Z", flat)
         if not m:
             return None, out
@@ -242,7 +273,7 @@ def delivery_of(ck, c):
     try:
         inp = os.path.join(ck.work, "body_in.jsonl")
         outp = os.path.join(ck.work, "body_out.jsonl")
-        open(inp, "w").write(json.dumps({k: c.get(k) for k in ("id", "class", "fmt", "otlp", "zip", "sep", "trail_nl", "seg_mode", "seg_seed", "retry")}) + "\n")
+        open(inp, "w").write(json.dumps({k: c.get(k) for k in ("id", "class", "fmt", "otlp", "zip", "sep", "trail_nl", "esc", "tails", "seg_mode", "seg_seed", "retry")}) + "\n")
         rc, _ = ck.go_run("spans", ["--cases", inp, "--out", outp], env_extra={"SPANS_DUMP_BODY": "1"})
         if rc == 0:
             o = json.loads(open(outp).readline())
@@ -262,7 +293,7 @@ def slim(c):
     """a case without its bulky observations (a replay needs the input only)"""
     if size_of(c) < 200000:
         return c
-    return {k: c.get(k) for k in ("id", "class", "fmt", "otlp", "zip", "sep", "trail_nl", "seg_mode", "seg_seed", "retry", "err", "errmsg", "resp")}
+    return {k: c.get(k) for k in ("id", "class", "fmt", "otlp", "zip", "sep", "trail_nl", "esc", "tails", "seg_mode", "seg_seed", "retry", "err", "errmsg", "resp")}
 
 
 def nontrivial(c):
@@ -315,7 +346,7 @@ def run_spans(ck):
                   "case ids: %s; %s" % ([c["id"] for c in changed[:10]], changed[0]["retry_diff"][:300] if changed else ""))
     cases = [c for c in cases if not c.get("panic")]
     byid = {c["id"]: c for c in cases}
-    tot = {"M": [], "V": [], "R": [], "CM": [], "CV": [], "WM": [], "WR": []}
+    tot = {"M": [], "V": [], "R": [], "CM": [], "CV": [], "WM": [], "WR": [], "TM": [], "TI": []}
     # Coq spends ~0.1 s per request elaborating the literal: shards are evaluated by parallel coqc processes
     shard = 100
     heavy = [c for c in cases if size_of(c) > 40000]           # the > 64 KiB / > 1 MiB requests: a shard each
@@ -331,11 +362,44 @@ def run_spans(ck):
             return
         for key in tot:
             tot[key] += res[key]
+    # a lone \uD800-\uDFFF escape in a Zipkin string: jx (write side) decodes U+FFFD, fastjson (read side) keeps the escape as text
+    known_ids = set()
+    sur = [c for c in cases if c.get("pay_tok_surrogate")]
+    if sur and "zipkin-lone-surrogate" in ck.known_findings():
+        known_ids = {c["id"] for c in sur}
+        ck.report_known("zipkin-lone-surrogate", "the tag-index value and the value read back differ for a string with an unpaired surrogate escape "
+                        "(case ids %s: %s)" % (sorted(known_ids)[:5], sur[0]["pay_tok_diff"][:160]))
+    for key in ("M", "V", "TM"):
+        tot[key] = [i for i in tot[key] if i not in known_ids]
+    tot["R"] = [(i, q) for (i, q) in tot["R"] if i not in known_ids]
     mism, viol = tot["M"], tot["V"]
     ck.obligation("correspondence: model Spans.decode/read_row = implementation on %d requests (rows, tag rows, payloads, read-back)" % len(cases),
                   not mism, "mismatching case ids: %s; legacy-defect diagnosis (case, defect): %s" % (mism[:10], tot["R"][:10]))
     ck.obligation("spec oracle spec_ok accepts every observed request (one row per span, tag rows of span, read back)",
                   not viol, "violating case ids: %s" % viol[:10])
+    # ---- the Zipkin payload as a token stream (model/SpansJson.v): the tokenizers are the oracle, everything above them is model
+    zcases = [c for c in cases if c["fmt"] != "otlp"]
+    tm = tot["TM"]
+    ck.obligation("correspondence: the token-level streaming walk SpansJson.zt_decode (decodeSpan over jx tokens: member names, repeated members, raw number "
+                  "texts through ParseInt, skipped values) = the tree-level decoder on what the tokens denote, and SpansJson.read_row_tok / read_events "
+                  "(fastjson parse of the stored token stream, fields, kind, annotations -> events) = OutputQuery, on %d Zipkin requests" % len(zcases),
+                  not tm, "mismatching case ids: %s" % tm[:10])
+    diff = [c for c in zcases if c.get("pay_tok_diff") and c["id"] not in known_ids]
+    ck.obligation("the write side's tokenizer (jx) and the read side's (fastjson) read the same token stream from every stored Zipkin payload "
+                  "(%d payloads)" % sum(len(c["spans"] or []) for c in zcases), not diff,
+                  "case ids: %s; %s" % ([c["id"] for c in diff[:10]], diff[0]["pay_tok_diff"][:200] if diff else ""))
+    if diff and not viol:
+        w = min(diff, key=size_of)
+        ck.violation({"property": PID, "kind": "a stored Zipkin payload reads differently on the read side: the two JSON tokenizers disagree on it",
+                      "case": slim(w), "difference": w["pay_tok_diff"], "delivery": delivery_of(ck, w),
+                      "replay": "harness spans --cases <file holding the 'case' object on one line> --out /dev/stdout"})
+    elif tm and not viol and not mism:
+        w = min((byid[i] for i in tm), key=size_of)
+        ck.violation({"property": PID, "kind": "token-level model and implementation (or the two models) disagree", "case": slim(w),
+                      "broken": "correspondence SpansJson.zt_decode / read_row_tok / read_events vs decodeSpan / parseZipkinJSON"}, no_input=True)
+    illf = set(tot["TI"])
+    ck.extra["zipkin_requests_with_a_line_that_is_not_one_json_value"] = len(illf)
+    ck.extra["zipkin_such_requests_refused"] = sum(1 for c in zcases if c["id"] in illf and c["err"])
     # the parser's responses (mid-request flush): model of onSpan's Size bookkeeping vs the observed responses, and the whole-span oracle
     cm, cv = tot["CM"], tot["CV"]
     nresp = sum(1 for c in cases if len(c.get("resp") or []) > 1)
@@ -438,7 +502,7 @@ def run_replay(ck):
         return
     inp = os.path.join(ck.work, "replay_in.jsonl")
     outp = os.path.join(ck.work, "replay_out.jsonl")
-    open(inp, "w").write(json.dumps({k: c.get(k) for k in ("id", "class", "fmt", "otlp", "zip", "sep", "trail_nl", "seg_mode", "seg_seed", "retry")}) + "\n")
+    open(inp, "w").write(json.dumps({k: c.get(k) for k in ("id", "class", "fmt", "otlp", "zip", "sep", "trail_nl", "esc", "tails", "seg_mode", "seg_seed", "retry")}) + "\n")
     rc, out = ck.go_run("spans", ["--cases", inp, "--out", outp])
     if rc != 0:
         ck.obligation("harness spans ran the replay", False, out[-1500:])
